@@ -1335,3 +1335,5 @@ def unit_block_readers(twin=False):
         ok(r, "reach.runner.tokens", k >= 2, "symex", k, kind="vacuity", undecided=True)
     r.assumptions += ["streamify_to_next_keyword collects the block's lines into the stream it is given; StorageBinList::Read / dumper::Read / StorageBinListItem::Augment under their own units"]
     return r
+
+from props.c14_ext2 import UNITS as _U2; UNITS = UNITS + _U2
